@@ -104,7 +104,8 @@ def run(ctx):
     c2 = sd.consts('file', NOid=4, Metas=('m0',), MaxTxn=9, MaxRecs=3, MaxClock=4, AtomVals=('v1', 'v2'), RefSets='FewRefs2',
                    Cls='MCClsPlain')
     files += [(f, c2) for f in S.simulate(ctx, 'pack', c2, num=num, depth=80, seed=ctx.seed + 32, next_='NextPack')]
-    jobs = [(f, c, os.path.join(ctx.scratch, 'c09-%d' % i), {'mode': 'c09', 'rng_seed': ctx.seed * 1000 + i, 'pad': (0, 0, 500)[i % 3]})
+    jobs = [(f, c, os.path.join(ctx.scratch, 'c09-%d' % i), {'mode': 'c09', 'rng_seed': ctx.seed * 1000 + i, 'pad': (0, 0, 500)[i % 3],
+                                                            'oid_stride': (1, 65537)[i % 2]})
             for i, (f, c) in enumerate(files)]
     res = par.pmap(crash.run_behaviour, jobs, chunksize=2)
     traces = [r['events'] for r in res]
